@@ -189,6 +189,66 @@ def gen_e2e(seed, tier, gates=()):
         yield s, path, ops, r.chance(60)
 
 
+def extra_cases():
+    """access forms outside the flat-store model's paths, with the oracle the property states directly: an index tuple
+    inside its dimensions yields that cell, any other tuple stops the program before anything after "start" is printed"""
+    cases = []
+    FID = "aggregate_element_paths_unchecked"
+
+    def add(cid, decls, body, show, ok, val, finding=None, pre=""):
+        prog = pre + "int main() {\n" + decls + "    println(\"start\");\n" + body + "    println(%s);\n    println(\"END\");\n    return 0;\n}\n" % show
+        c = {"id": cid, "program": prog, "expect_class": "ok" if ok else "error",
+             "expect_stdout": ("start\n%s\nEND\n" % val) if ok else "start\n"}
+        if finding and not ok:
+            c["finding"] = finding
+        cases.append(c)
+
+    m2 = "    int[2][3] m = [[10, 11, 12], [20, 21, 22]];\n"
+    g2 = "int[2][3] gm = [[10, 11, 12], [20, 21, 22]];\n"
+    for i in range(-1, 3):
+        for j in range(-1, 5):
+            ok = 0 <= i < 2 and 0 <= j < 3
+            val = 10 * (i + 1) + j
+            add("addr-local-%d-%d" % (i, j), m2, "    int* p = &m[%d][%d];\n" % (i, j), "*p", ok, val)
+            add("addr-var-%d-%d" % (i, j), m2 + "    int i = %d;\n    int j = %d;\n" % (i, j), "    int* p = &m[i][j];\n", "*p", ok, val)
+            add("addr-global-%d-%d" % (i, j), "", "    int* p = &gm[%d][%d];\n" % (i, j), "*p", ok, val, pre=g2)
+            add("addr-write-%d-%d" % (i, j), m2, "    int* p = &m[%d][%d];\n    *p = 77;\n" % (i, j),
+                "m[%d][%d]" % (max(0, min(i, 1)), max(0, min(j, 2))), ok, 77)
+            add("addr-param-%d-%d" % (i, j), m2, "    int v = peek(m, %d, %d);\n" % (i, j), "v", ok, val,
+                pre="int peek(int[2][3] q, int i, int j) {\n    int* p = &q[i][j];\n    return *p;\n}\n")
+    m3 = "    int[2][2][2] c = [[[1, 2], [3, 4]], [[5, 6], [7, 8]]];\n"
+    for t in [(0, 0, 0), (1, 1, 1), (0, 2, 0), (0, 0, 2), (1, -1, 0), (0, 1, -1), (2, 0, 0), (-1, 1, 1), (0, 3, 1)]:
+        ok = all(0 <= x < 2 for x in t)
+        add("addr-3d-%d-%d-%d" % t, m3, "    int* p = &c[%d][%d][%d];\n" % t, "*p", ok, 1 + t[0] * 4 + t[1] * 2 + t[2])
+    # arrays of structs
+    sp = "struct Pt { int x; string n; };\nPt[2] gs;\n"
+    sd = "    Pt[2] oa;\n    oa[0].x = 100;\n    oa[1].x = 101;\n    oa[0].n = \"a\";\n    oa[1].n = \"b\";\n    gs[0].x = 100;\n    gs[1].x = 101;\n"
+    for i in range(-1, 4):
+        ok = 0 <= i < 2
+        k = max(0, min(i, 1))
+        add("sa-read-%d" % i, sd, "    int v = oa[%d].x;\n" % i, "v", ok, 100 + i, FID, sp)
+        add("sa-read-var-%d" % i, sd + "    int i = %d;\n" % i, "    int v = oa[i].x;\n", "v", ok, 100 + i, FID, sp)
+        add("sa-readstr-%d" % i, sd, "    string v = oa[%d].n;\n" % i, "v", ok, "ab"[k], FID, sp)
+        add("sa-write-%d" % i, sd, "    oa[%d].x = 55;\n" % i, "oa[%d].x" % k, ok, 55, FID, sp)
+        add("sa-writestr-%d" % i, sd, "    oa[%d].n = \"q\";\n" % i, "oa[%d].n" % k, ok, "q", FID, sp)
+        add("sa-compound-%d" % i, sd, "    oa[%d].x += 5;\n" % i, "oa[%d].x" % k, ok, 105 + i, FID, sp)
+        add("sa-incr-%d" % i, sd, "    oa[%d].x++;\n" % i, "oa[%d].x" % k, ok, 101 + i, FID, sp)
+        add("sa-copy-%d" % i, sd, "    Pt q = oa[%d];\n" % i, "q.x", ok, 100 + i, FID, sp)
+        add("sa-assign-%d" % i, sd + "    Pt q;\n    q.x = 7;\n", "    oa[%d] = q;\n" % i, "oa[%d].x" % k, ok, 7, FID, sp)
+        add("sa-global-read-%d" % i, sd, "    int v = gs[%d].x;\n" % i, "v", ok, 100 + i, FID, sp)
+        add("sa-global-write-%d" % i, sd, "    gs[%d].x = 55;\n" % i, "gs[%d].x" % k, ok, 55, FID, sp)
+    # two-dimensional string arrays (reads)
+    s2 = "    string[2][2] s = [[\"s00\", \"s01\"], [\"s10\", \"s11\"]];\n"
+    for i in range(-1, 3):
+        for j in range(-1, 4):
+            ok = 0 <= i < 2 and 0 <= j < 2
+            add("str2d-read-%d-%d" % (i, j), s2, "    string v = s[%d][%d];\n" % (i, j), "v", ok, "s%d%d" % (i, j), FID)
+            add("str2d-print-%d-%d" % (i, j), s2, "", "s[%d][%d]" % (i, j), ok, "s%d%d" % (i, j), FID)
+    # not generated, because the in-range form does not work either: struct arrays as parameters (the callee sees zeros and its
+    # stores are lost), stores to a two-dimensional string array (rejected), row slices `int[3] r = m[0];` (zeros)
+    return cases
+
+
 def main(a):
     v = common.Verdict(PID, a.tier, a.seed)
     driver_ok, failed = common.lean_obligations(v, ["CbProofs", "CbProps.C05"], THEOREMS)
@@ -205,6 +265,11 @@ def main(a):
             _, m, _ = common.run_lines([drv, "c05"], [rp["case_line"]])
             _, i, _ = common.run_lines([harness], [rp["case_line"]])
             if m != i:
+                v.violation("replay still fails", rp)
+        elif rp.get("kind") == "form":
+            exe, blog = common.build_impl()
+            out = common.run_programs(exe, [rp["program"]])[0]
+            if (out[0], out[1]) != (rp["expected_stdout"], rp["expected_exit"]):
                 v.violation("replay still fails", rp)
         else:
             exe, blog = common.build_impl()
@@ -250,6 +315,8 @@ def main(a):
     for f in findings:
         w = json.load(open(os.path.join(common.ROOT, f["witness"])))
         gates |= set(f.get("gates", []))
+        if w.get("kind") == "form":
+            continue          # reported with the number of failing cases of suite (c)
         _, m1, _ = common.run_lines([drv, "c05seq"], [w["model_line"]])
         o1 = common.run_programs(exe, [w["program"]])[0]
         if (o1[0], o1[1]) != expected(m1[0]):
@@ -281,6 +348,32 @@ def main(a):
                 rep += 1
                 v.violation("path %s shape %s: expected exit %s got %s" % (mt[1], mt[0], exp[1], o[1]), rp)
     evals += len(progs)
+    # ---- (c) access forms outside the flat-store model (address-of with an out-of-range tuple, arrays of structs,
+    #          two-dimensional string arrays): oracle stated by the property itself
+    xc = extra_cases()
+    xo = common.run_programs(exe, [c["program"] for c in xc], timeout=5)
+    listed = {f["id"]: f for f in findings}
+    xknown = {}
+    xrep = 0
+    for c, o in zip(xc, xo):
+        if c["expect_class"] == "error":
+            nontrivial += 1
+        if o[1] == c["expect_class"] and o[0] == c["expect_stdout"]:
+            continue
+        fid = c.get("finding")
+        if fid and fid in listed:
+            xknown[fid] = xknown.get(fid, 0) + 1
+            continue
+        if xrep < 6:
+            xrep += 1
+            v.violation("access-form case %s: expected exit class %s and stdout %r, got %s / %r" % (
+                c["id"], c["expect_class"], c["expect_stdout"], o[1], o[0][-100:]),
+                {"kind": "form", "case": c["id"], "program": c["program"], "expected_stdout": c["expect_stdout"],
+                 "expected_exit": c["expect_class"], "got_stdout": o[0], "got_exit": o[1], "stderr": o[2]})
+    for fid, n in xknown.items():
+        v.known_finding(listed[fid]["what"] + " [%d cases]" % n)
+    evals += len(xc)
+    v.coverage.update({"access_form_cases": len(xc), "known_finding_cases": xknown})
     v.coverage.update({
         "evaluations": evals, "distinct_nontrivial": nontrivial,
         "rule": "in-process: every shape of <=3 dims with extents 1..5 x every index tuple in [-2,extent+2]^d (exhaustive) "
